@@ -19,37 +19,22 @@ def subLoaded (sub : SubRef) (r : Option (Nat × Nat)) (err : String) : M Unit :
 def subEvent (sub : SubRef) (ev : REv) : M Unit := do
   let _ ← connEnqueue sub.cid (.event sub.uid ev)
 
-/-- `getResourceSubscription`. -/
+/-- `getResourceSubscription`: the resource a query resolves to (`QIdx.lookup`), created and
+    registered if there is none. -/
 def getResourceSubscription (eid : Nat) (q : String) : M Nat := do
   let e ← getEntry eid
-  let mk : M Nat := do
+  match e.idx.lookup q with
+  | some rs => return rs
+  | none =>
     let rs ← fresh
     setRes eid rs { query := q }
+    modEntry eid fun e => e.withIdx (e.idx.register q rs)
     return rs
-  if q == "" then
-    match e.base with
-    | some rs => return rs
-    | none =>
-      let rs ← mk
-      modEntry eid fun e => { e with base := some rs }
-      return rs
-  else
-    match sget e.queries q with
-    | some rs => return rs
-    | none =>
-      match sget e.links q with
-      | some rs => return rs
-      | none =>
-        let rs ← mk
-        modEntry eid fun e => { e with queries := e.queries ++ [(q, rs)] }
-        return rs
 
 /-- `ResourceSubscription.unregister`. -/
 def unregister (eid rs : Nat) : M Unit := do
   let r ← getRes eid rs
-  modEntry eid fun e =>
-    let e := if r.query == "" then { e with base := none } else { e with queries := sdel e.queries r.query }
-    r.links.foldl (fun e q => if q == "" then { e with base := none } else { e with links := sdel e.links q }) e
+  modEntry eid fun e => e.withIdx (e.idx.unregister r.query r.links)
   modRes eid rs fun r => { r with links := [] }
 
 def sendGet (eid rs : Nat) (query : String) (reset : Bool) (t : Option Nat) : M Unit := do
@@ -155,8 +140,7 @@ def processGetResponse (eid rs : Nat) (ans : GetAns) : M (Nat × List SubRef) :=
   | .ok content query =>
     let nrs ← if query != r.query then do
         let nrs ← getResourceSubscription eid query
-        if r.query == "" then modEntry eid fun e => { e with base := some nrs }
-        else modEntry eid fun e => { e with links := sset e.links r.query nrs, queries := sdel e.queries r.query }
+        modEntry eid fun e => e.withIdx (e.idx.link r.query nrs)
         modRes eid nrs fun n =>
           { n with links := n.links ++ [r.query],
                    subs := n.subs ++ r.subs.filter (fun s => !n.subs.contains s) }
